@@ -184,6 +184,9 @@ func (s *Solver) Model(vars []*Term) map[*Term]uint64 {
 	if len(vars) == 0 {
 		return m
 	}
+	for _, v := range vars {
+		s.declare(v)
+	}
 	var sb strings.Builder
 	sb.WriteString("(get-value (")
 	for _, v := range vars {
